@@ -91,6 +91,31 @@ std::optional<sqf::runtime::fileio::pathinfo> sqf::fileio::impl_default::get_inf
         }
     }
 
+    // Resolve every dir-up against the segment preceding it, so that only leading ones remain.
+    // (Once the walk below has left the mapped nodes it cannot honour a dir-up anymore.)
+    {
+        std::vector<std::string> segments;
+        std::istringstream stream_virt(virt);
+        for (auto it = std::istream_iterator<StringDelimiter<'/'>>{ stream_virt }; it != std::istream_iterator<StringDelimiter<'/'>>{}; ++it)
+        {
+            if (it->empty()) { /* skip empty */ continue; }
+            if (*it == ".."s && !segments.empty() && segments.back() != ".."s)
+            {
+                segments.pop_back();
+            }
+            else
+            {
+                segments.push_back(*it);
+            }
+        }
+        virt.clear();
+        for (auto& segment : segments)
+        {
+            virt.append("/");
+            virt.append(segment);
+        }
+    }
+
     // Explore further until we hit dead-end
     {
         std::istringstream stream_virt(virt);
